@@ -17,7 +17,7 @@ CLAIMS = {
                  "VimSpec's text for [n]x and [n]X. VimSpec itself is compared with the recorded Vim on every case of its fragment.",
         "note": NOTE_COMMON + " This property is conformance to an external program over a finite recorded corpus: outside the VimSpec fragment the replay is a differential "
                 "test, not a proof, and is labelled as such. 33% of the corpus deviated at the pinned commit (70 717 cases: line-end and final-newline handling, whole-line "
-                "commands, put, word/sentence/paragraph objects and motions); the root causes were repaired in 33 fix commits and 4% of the first corpus (11 193 of 214 934 cases) is left; a multi-line family recorded afterwards (59 613 cases) added 4 656 more, most of them repaired since; 11 505 of 274 547 are left, recorded by corpus id.",
+                "commands, put, word/sentence/paragraph objects and motions); the root causes were repaired in 33 fix commits and 4% of the first corpus (11 193 of 214 934 cases) is left; a multi-line family recorded afterwards (59 613 cases) added 4 656 more, most of them repaired since; 11 485 of 274 547 are left, recorded by corpus id.",
         "technique": "recorded-oracle differential replay (Vim 9 corpus) + Lean 4 proofs: laws of the VimSpec fragment and conformance of the vicut model with it; VimSpec validated against the corpus",
     },
     "C10": {
